@@ -672,6 +672,11 @@ class PowTheory(object):
                 if t1.eq(t2):
                     w = self.apply(t1, e1 + e2, closure=True)
                     self.ex.axiom(v1 * v2 == w)
+            # the identity P_1(x) = x takes part in the product law as well
+            w = self.apply(t1, e1 + 1, closure=True)
+            self.ex.axiom(v1 * t1 == w)
+            w2 = self.apply(t1, fractions.Fraction(2), closure=True)
+            self.ex.axiom(t1 * t1 == w2)
 
     def __init__(self, ex):
         self.ex = ex
